@@ -18,7 +18,7 @@ Record fobs := mkFobs {
   fo_vals : list (Z * Z);                    (* (data * 10^8, unix time), newest first (FeedValue query) *)
   fo_run : bool;                             (* listed by Feeds(state = running) *)
   fo_pau : bool;                             (* listed by Feeds(state = paused) *)
-  fo_ctx : option (Z * Z * Z * Z)            (* service context: state, batch counter, threshold, batch threshold *)
+  fo_ctx : option (Z * Z * Z * Z * bool)     (* service context: state, batch counter, threshold, batch threshold, batch running *)
 }.
 Record obs := mkObs { o_code : Z; o_feeds : list (Z * fobs) }.
 
@@ -46,7 +46,7 @@ Fixpoint vals_corr (t : tols) (c : Z) (m : list (Z * fval)) (o : list (Z * Z)) :
   end.
 
 Definition feed_proj (f : feed) : Z * Z * Z * Z * Z := (f_agg f, f_path f, f_lh f, f_ctx f, f_creator f).
-Definition ctx_proj (x : sctx) : Z * Z * Z * Z := (x_state x, x_bc x, x_thr x, x_bthr x).
+Definition ctx_proj (x : sctx) : Z * Z * Z * Z * bool := (x_state x, x_bc x, x_thr x, x_bthr x, x_open x).
 
 Definition corr_feed (t : tols) (s : state) (nf : Z * fobs) : bool :=
   let '(name, fo) := nf in
@@ -74,7 +74,7 @@ Fixpoint sevs_consistent (s : state) (now : Z) (evs : list sev) : bool :=
       match e with
       | SDone c bc bthr _ _ =>
           match get c (ctxs s) with
-          | Some x => (x_bc x =? bc) && (x_bthr x =? bthr)
+          | Some x => (x_bc x =? bc) && (x_bthr x =? bthr) && x_open x
           | None => false
           end
       | _ => true
@@ -142,7 +142,7 @@ Definition count_fresh (e : list ventry) : nat := length (filter (fun '(_, _, _,
 
 Definition mirror_ok (fo : fobs) : bool :=
   match fo_feed fo, fo_ctx fo with
-  | Some _, Some (st, _, _, _) => Bool.eqb (fo_run fo) (st =? RUNNING) && Bool.eqb (fo_pau fo) (st =? PAUSED)
+  | Some _, Some (st, _, _, _, _) => Bool.eqb (fo_run fo) (st =? RUNNING) && Bool.eqb (fo_pau fo) (st =? PAUSED)
   | Some _, None => false
   | None, _ => negb (fo_run fo) && negb (fo_pau fo)
   end.
